@@ -18,8 +18,8 @@ from vlib.common import exc_site, fp
 LEVEL = "exploration"
 SHARD_TIMEOUT = {"quick": 300, "thorough": 1800}
 
-LENGTH_VALUES = [8, 16, 20, 24, 32, 48, 0, -1, 2.5, "16", None]
-COUNT_VALUES = [0, 1, 2, 3, 8, 64, -1, 2.5, "4", None]
+LENGTH_VALUES = [8, 16, 20, 24, 32, 48, 0, -1, 2.5, "16", None, 16.0, 32.0, [16], b"16"]
+COUNT_VALUES = [0, 1, 2, 3, 8, 64, -1, 2.5, "4", None, 4.0, [4]]
 NAMES = {
     "prf": ["HmacPRF", "hmac-prf", "HMAC_PRF", "", "NoSuchPRF", "AES-CBC", None],
     "ske": ["AES-CBC", "aes_cbc", "AESCBC", "", "DES-CBC", "HmacPRF", None],
